@@ -123,7 +123,7 @@ def random_hyper(name, d, n_classes, rng):
     p = {'n_neighbors': int(rng.randint(1, 4)),
          'regularization': float(rng.uniform(0.05, 0.95)),
          'learn_rate': lu(1e-8, 1e-2), 'min_iter': int(rng.randint(1, 8)),
-         'max_iter': int(rng.randint(3, 25)),
+         'max_iter': int(rng.randint(1, 25)),
          'convergence_tol': lu(1e-6, 1e-1)}
   elif name in ('NCA', 'MLKR'):
     p = {'max_iter': int(rng.randint(1, 15)),
